@@ -7574,6 +7574,55 @@ func bufferByteRange(c *Ctx) {
 // and the CalledByContract/CalledByGroup conditions all exclude. Loaded with the contract's own hash as the caller,
 // the contract would witness itself in any scope. Every LoadNEFMethod call of InitVerificationContext passes the zero
 // value for the caller parameter.
+// isZeroValueExpr: an empty composite literal, or a local every definition of which is a declaration without a value
+// or an empty composite literal.
+func isZeroValueExpr(f *FuncCFG, e ast.Expr) bool {
+	switch x := ast.Unparen(e).(type) {
+	case *ast.CompositeLit:
+		return len(x.Elts) == 0
+	case *ast.Ident:
+		v, ok := f.Info.ObjectOf(x).(*types.Var)
+		if !ok || v.IsField() || f.params[v] {
+			return false
+		}
+		// declared in this function, with or without a value; never assigned elsewhere
+		declared, assigned := false, false
+		ast.Inspect(f.Body, func(n ast.Node) bool {
+			switch y := n.(type) {
+			case *ast.ValueSpec:
+				for _, nm := range y.Names {
+					if f.Info.ObjectOf(nm) == types.Object(v) {
+						declared = true
+					}
+				}
+			case *ast.AssignStmt:
+				for _, l := range y.Lhs {
+					if id, ok := ast.Unparen(l).(*ast.Ident); ok && f.Info.ObjectOf(id) == types.Object(v) && y.Tok != token.DEFINE {
+						assigned = true
+					}
+				}
+			case *ast.UnaryExpr:
+				if id, ok := ast.Unparen(y.X).(*ast.Ident); ok && y.Op == token.AND && f.Info.ObjectOf(id) == types.Object(v) {
+					assigned = true // address taken
+				}
+			}
+			return true
+		})
+		if assigned || (!declared && len(f.defs[v]) == 0) {
+			return false
+		}
+		for _, d := range f.defs[v] {
+			for _, r := range d.rhs {
+				if cl, ok := ast.Unparen(r).(*ast.CompositeLit); !ok || len(cl.Elts) != 0 {
+					return false
+				}
+			}
+		}
+		return true
+	}
+	return false
+}
+
 func verificationHasNoCaller(c *Ctx) {
 	fd := c.P.Func("pkg/core", "Blockchain", "InitVerificationContext")
 	if fd == nil {
@@ -7593,8 +7642,7 @@ func verificationHasNoCaller(c *Ctx) {
 				continue
 			}
 			n++
-			cl, ok := ast.Unparen(s.call.Args[i]).(*ast.CompositeLit)
-			if ok && len(cl.Elts) == 0 {
+			if isZeroValueExpr(f, s.call.Args[i]) {
 				c.OK("verification-has-no-caller", c.P.Pos(s.call.Pos()), "the verification context is loaded with the zero hash as its caller")
 			} else {
 				c.Fail("verification-has-no-caller", c.P.Pos(s.call.Pos()), fmt.Sprintf("InitVerificationContext loads a contract's verify method with %s as the calling script hash: a verification context has no caller, and with a caller set the calling-hash shortcut of CheckWitness and the CalledByContract/CalledByGroup conditions hold for it - the contract witnesses itself whatever the scope", types.ExprString(s.call.Args[i])))
@@ -7630,9 +7678,7 @@ func verificationHasNoCaller(c *Ctx) {
 		for i := 0; i < sig.Params().Len() && i < len(call.Args); i++ {
 			if sig.Params().At(i).Name() == "caller" {
 				l.implicit = false
-				if cl, ok := ast.Unparen(call.Args[i]).(*ast.CompositeLit); ok && len(cl.Elts) == 0 {
-					l.zero = true
-				}
+				l.zero = isZeroValueExpr(f, call.Args[i])
 			}
 		}
 		loads = append(loads, l)
@@ -8525,7 +8571,12 @@ func ruleHandlerStatesAgree(c *Ctx) {
 		}
 		if rs, ok := is.Body.List[0].(*ast.ReturnStmt); ok && len(rs.Results) == 1 {
 			if v, isC := boolConst(info, rs.Results[0]); isC && v {
-				seeCond = is.Cond
+				// several ifs that return true are the disjunction of their conditions
+				if seeCond == nil {
+					seeCond = is.Cond
+				} else {
+					seeCond = &ast.BinaryExpr{X: seeCond, Op: token.LOR, Y: is.Cond, OpPos: is.Cond.Pos()}
+				}
 			}
 		}
 		return true
